@@ -372,3 +372,5 @@ PROP = Prop(
                  "one-vs-all array (the binary formulas themselves are C04's subject)",
                  "class names avoid NUL characters (NumPy strips trailing NULs from str arrays)"],
 )
+
+RULE_EXTRA = ("float matrices scaled by 1e-11..1e12 with tolerances relative to the matrix's population; independence of rates from the overall scale.")
